@@ -15,7 +15,7 @@ class Prop:
     id = "C10"
     level = "exploration"
     engine = "VT"
-    quick_runs = 50000
+    quick_runs = 80000
     thorough_runs = 2000000
     run_wall = 6.0
     hang_rule = "did-not-terminate"  # e.g. an unbounded retry of a synchronously failing source never leaves the instant
